@@ -164,7 +164,7 @@ def legs(tier):
             strategy=tie_cases(), n_quick=1200, n_thorough=20000, valid=valid, floor=0.3),
         Leg("few-distinct-values", evaluate, "hypothesis: snp / rnp / ckk with 3-4 bins on 8-10 items drawn from 2-4 distinct values (plain numbers "
             "are indistinguishable where named items are not); same oracle and rule", strategy=few_values_recursive_cases(), n_quick=600,
-            n_thorough=32000, valid=valid, floor=0.3, shards=16),
+            n_thorough=4000, valid=valid, floor=0.3, shards=16),
         Leg("mirrored", evaluate, "hypothesis: inputs made of two value-identical halves (6-10 items) for the recursive / memoising algorithms "
             "(rnp, snp, ckk, cg, dp, bin completion ...) and some heuristics; same oracle and rule",
             strategy=mirrored_cases(), n_quick=900, n_thorough=18000, valid=valid, floor=0.3),
